@@ -300,7 +300,10 @@ class NDArray:
         return e, ((lambda idx: True) if i is None else i)
 
     def size(self):
-        return zprod(self.shape)
+        r = zprod(self.shape)
+        if _DEFINER[0] is not None and is_z3(r):
+            return _DEFINER[0](r, "size")
+        return r
 
     def __repr__(self):
         return f"NDArray(shape={self.shape},{self.dtype})"
